@@ -143,7 +143,7 @@ theorem tfields_fromCtx (env : Env) {Γ : Ctx} (cs : List String) : ∀ {args : 
     exact ⟨fun y hy => hy.elim (h1 y) (h3 y), h2, h4⟩
 
 theorem cexpr_fromCtx {env : Env} {file : AFile} {G : List String} {Γ : Ctx} {K : KCtx} {c : CExpr} (hctl : isCtl c = false)
-    (h : fragC env file G Γ K c = true) :
+    (hgoc : isGoC c = false) (h : fragC env file G Γ K c = true) :
     (∀ y, y ∈ varsUsed (compileCExpr env c) → FromCtx file G Γ (calleesC (Γ.map (·.1)) c) y) ∧ noBlockExpr (compileCExpr env c) = true := by
   cases c with
   | imm i => exact imm_fromCtx env h _
@@ -371,7 +371,7 @@ theorem cexpr_fromCtx {env : Env} {file : AFile} {G : List String} {Γ : Ctx} {K
       simp only [compileCExpr, varsUsed, noBlockExpr]; exact ⟨h1, h2⟩
   | toDyn tr forTy e ty => simp [fragC] at h
   | dynCall tr m recv args ty => simp [fragC] at h
-  | go e ty => simp [fragC] at h
+  | go e ty => simp [isGoC] at hgoc
   | proj e idx ty =>
     simp only [fragC, Bool.and_eq_true] at h
     obtain ⟨h1, h2⟩ := imm_fromCtx env h.1 (calleesC (Γ.map (·.1)) (.proj e idx ty))
@@ -432,17 +432,56 @@ theorem expr_ok {D sc : Names} {Γ : Ctx} {cs : List String} (hctx : SCtx file G
     · exact (hctx.cal _ hf).1 (hctx.scD t ht)
     · exact (hctx.fns e he).1 (heq ▸ hctx.scD t ht)
 
+/-- the statement of a `go` of the fragment is clean -/
+theorem go_clean {env : Env} {file : AFile} {G : List String} {D : Names} (e : Imm) (ty : Ty) (Γ : Ctx) (K : KCtx) (sc : Names)
+    (hfrag : fragC env file G Γ K (.go e ty) = true) (hctx : SCtx file G D sc Γ (calleesC (Γ.map (·.1)) (.go e ty))) :
+    scopeErrsStmt D sc (compileGo env e) = [] ∧ shapeOKStmt (compileGo env e) = true := by
+  obtain ⟨sn, fty, rty, hety, he, _, hshape⟩ := compileGo_shape hfrag
+  obtain ⟨a1, a2⟩ := imm_fromCtx env he (calleesC (Γ.map (·.1)) (.go e ty))
+  have hfrom : ∀ y, y ∈ varsUsed (GExpr.call (goTy rty) (.var (vn (applyFnName sn)) (goTy fty)) (compileImms env [e])) →
+      FromCtx file G Γ (calleesC (Γ.map (·.1)) (.go e ty)) y := by
+    intro y hy
+    simp only [varsUsed, varsUsedList, compileImms, List.map_cons, List.map_nil, mem_uni, List.mem_singleton, List.not_mem_nil,
+      or_false] at hy
+    rcases hy with rfl | hy
+    · exact Or.inr (Or.inl (by simp [calleesC, hety]))
+    · exact a1 y hy
+  obtain ⟨h1, h2, _⟩ := expr_ok hctx hfrom
+  rw [hshape]
+  refine ⟨by simp only [scopeErrsStmt]; exact h1, ?_⟩
+  simp only [shapeOKStmt, h2, Bool.not_false, Bool.and_true]
+  simp [noBlockExpr, noBlockList, compileImms, a2]
+
 /-- the simple forms in tail position -/
 theorem scopeC_simple {env : Env} {file : AFile} {G : List String} {D : Names} (m : Mode) (c : CExpr) (Γ : Ctx) (K : KCtx) (sc : Names)
     (hctl : isCtl c = false) (hfrag : fragC env file G Γ K c = true) (hctx : SCtx file G D sc Γ (calleesC (Γ.map (·.1)) c))
     (htgt : TgtSc m Γ sc) : Clean D sc (compileSimple env m c) := by
-  obtain ⟨hfrom, hnb⟩ := cexpr_fromCtx hctl hfrag
+  by_cases hgoc : isGoC c = false
+  rotate_left
+  · cases c <;> simp [isGoC] at hgoc
+    rename_i e ty
+    obtain ⟨hg1, hg2⟩ := go_clean e ty Γ K sc hfrag hctx
+    obtain ⟨X, hX⟩ := compileGo_isGo env e
+    cases m with
+    | effect => simp only [compileSimple]; exact clean_cons hg1 hg2 (clean_nil _ _)
+    | assign t =>
+      obtain ⟨htk, hne⟩ := htgt
+      simp only [compileSimple]
+      refine clean_cons hg1 hg2 (clean_cons ?_ ?_ (clean_nil _ _))
+      · rw [hX]
+        simp only [declScope, scopeErrsStmt, unitE, varsUsed, undecl, List.filter_nil, List.nil_append]
+        have : sc.contains (gid t) = true := by simpa using htk
+        simp [this]
+        exact fun _ => htk
+      · simp [shapeOKStmt, unitE, noBlockExpr, varsUsed]
+  obtain ⟨hfrom, hnb⟩ := cexpr_fromCtx hctl hgoc hfrag
   obtain ⟨h1, h2, h3⟩ := expr_ok hctx hfrom
   cases m with
   | assign t =>
     obtain ⟨htk, hne⟩ := htgt
     have hshape : compileSimple env (.assign t) c = [.assign (gid t) (compileCExpr env c)] := by
-      cases c <;> simp [isCtl] at hctl <;> (try (simp [fragC] at hfrag; done)) <;> simp only [compileSimple]
+      cases c <;> simp [isCtl] at hctl <;> (try (simp [fragC] at hfrag; done)) <;> (try (simp [isGoC] at hgoc; done)) <;>
+        simp only [compileSimple]
       rename_i f args ty
       simp only [fragC] at hfrag
       simp [not_missing' hfrag]
@@ -453,7 +492,8 @@ theorem scopeC_simple {env : Env} {file : AFile} {G : List String} {D : Names} (
       simp [this, htk]
     · simp only [shapeOKStmt, hnb, h2, h3 (gid t) htk hne]; rfl
   | effect =>
-    cases c <;> simp [isCtl] at hctl <;> (try (simp [fragC] at hfrag; done)) <;> simp only [compileSimple] <;>
+    cases c <;> simp [isCtl] at hctl <;> (try (simp [fragC] at hfrag; done)) <;> (try (simp [isGoC] at hgoc; done)) <;>
+      simp only [compileSimple] <;>
       first
         | exact clean_nil _ _
         | (refine clean_cons ?_ ?_ (clean_nil _ _)
@@ -613,9 +653,57 @@ theorem scopeA {env : Env} {file : AFile} {G : List String} {D : Names} :
       exact scopeA body m d.2 _ _ _ hfb hctx2 hdecl2 htgt2
     · -- `var x T = e`
       have hctl' : isCtl v = false := by simpa using hctl
-      simp only [letPrefix, letBodySt, hctl', Bool.false_eq_true, if_false, bindSimple_shape x hfv] at hdecl hndP hndR hdisj ⊢
+      by_cases hgoc : isGoC v = false
+      rotate_left
+      · -- `go f(env); var x struct{} = struct{}{}`
+        cases v <;> simp [isGoC] at hgoc
+        rename_i e ty'
+        obtain ⟨hg1, hg2⟩ := go_clean e ty' Γ K sc hfv hctxv
+        obtain ⟨X, hX⟩ := compileGo_isGo env e
+        have hty : ty' = .unit := by
+          obtain ⟨_, _, _, _, _, h, _⟩ := compileGo_shape hfv; exact h
+        subst hty
+        simp only [letPrefix, letBodySt, isCtl, Bool.false_eq_true, if_false, compileBindSimple, CExpr.annTy] at hdecl hndP hndR hdisj hfb ⊢
+        have hdP : ndDecls [compileGo env e, GStmt.varDecl (vn x) .unit (some unitE)] = [vn x] := by
+          rw [hX]; simp [ndDecls, ndDeclsOf]
+        have hds : declScope (compileGo env e) sc = sc := by rw [hX]; rfl
+        have hxin := hdecl.2 (vn x) (by rw [ndDecls_append, hdP]; simp)
+        have hvd := varDecl_ok (D := D) (sc := sc) (x := vn x) (ty := GTy.unit) (v := some unitE) hxin.1 hxin.2.1 hxin.2.2
+          (by simp [unitE, varsUsed, undecl]) (by simp [Goml.Dce.noBlockOpt, unitE, noBlockExpr]) (by simp [unitE, varsUsed])
+        refine clean_append (clean_cons hg1 hg2 (by rw [hds]; exact clean_cons hvd.1 hvd.2 (clean_nil _ _))) ?_
+        rw [show scopeAfter [compileGo env e, GStmt.varDecl (vn x) GTy.unit (some unitE)] sc = vn x :: sc by
+          simp only [scopeAfter, hds]; rfl]
+        have hctx2 : SCtx file G D (vn x :: sc) ((x, .unit) :: Γ) (calleesA (x :: Γ.map (·.1)) body) := by
+          refine ⟨fun y t hy => ?_, fun y hy => ?_, fun h => ?_, fun f hf => hctx.cal f (by simp [calleesA, hf]), hctx.fns⟩
+          · by_cases hxy : x = y
+            · subst hxy; exact List.mem_cons_self
+            · rw [lookupTy_cons_ne _ _ hxy] at hy; exact List.mem_cons_of_mem _ (hctx.vars y t hy)
+          · rcases List.mem_cons.mp hy with rfl | hy
+            · exact hxin.2.1
+            · exact hctx.scD y hy
+          · rcases List.mem_cons.mp h with h | h
+            · exact hxin.2.2 h.symm
+            · exact hctx.nob h
+        have hdecl2 : DeclOK D (vn x :: sc) (compileA env m (st.check (okBindSimple env (.go e .unit))) body).1 :=
+          ⟨hndR, fun y hy => by
+            have := hdecl.2 y (by rw [ndDecls_append]; exact List.mem_append_right _ hy)
+            refine ⟨fun h => ?_, this.2⟩
+            rcases List.mem_cons.mp h with rfl | h
+            · exact hdisj _ (by rw [hdP]; exact List.mem_cons_self) _ hy rfl
+            · exact this.1 h⟩
+        have htgt2 : TgtSc m ((x, .unit) :: Γ) (vn x :: sc) := by
+          cases m with
+          | effect => trivial
+          | assign t =>
+            obtain ⟨htk, hne⟩ := htgt
+            refine ⟨List.mem_cons_of_mem _ htk, fun y ty hy => ?_⟩
+            by_cases hxy : x = y
+            · subst hxy; exact fun e => hxin.1 (e ▸ htk)
+            · rw [lookupTy_cons_ne _ _ hxy] at hy; exact hne y ty hy
+        exact scopeA body m _ _ _ _ hfb hctx2 hdecl2 htgt2
+      simp only [letPrefix, letBodySt, hctl', Bool.false_eq_true, if_false, bindSimple_shape x hfv hgoc] at hdecl hndP hndR hdisj ⊢
       have hxin := hdecl.2 (vn x) (by rw [ndDecls_append, ndDecls_varDecl]; simp)
-      obtain ⟨hfrom, hnb⟩ := cexpr_fromCtx hctl' hfv
+      obtain ⟨hfrom, hnb⟩ := cexpr_fromCtx hctl' hgoc hfv
       obtain ⟨h1, h2, _⟩ := expr_ok hctxv hfrom
       have hvd := varDecl_ok (ty := goTy v.annTy) (v := some (compileCExpr env v)) hxin.1 hxin.2.1 hxin.2.2 h1 hnb h2
       refine clean_append (clean_cons hvd.1 hvd.2 (clean_nil _ _)) ?_
@@ -903,7 +991,8 @@ theorem scopeC {env : Env} {file : AFile} {G : List String} {D : Names} :
     rw [compileTail_simple env m st (by rfl)]; exact scopeC_simple m _ Γ K sc rfl hfrag hctx htgt
   | .toDyn tr forTy e ty, m, st, Γ, K, sc, hfrag, _, _, _ => by simp [fragC] at hfrag
   | .dynCall tr mm recv args ty, m, st, Γ, K, sc, hfrag, _, _, _ => by simp [fragC] at hfrag
-  | .go e ty, m, st, Γ, K, sc, hfrag, _, _, _ => by simp [fragC] at hfrag
+  | .go e ty, m, st, Γ, K, sc, hfrag, hctx, hdecl, htgt => by
+    rw [compileTail_simple env m st (by rfl)]; exact scopeC_simple m _ Γ K sc rfl hfrag hctx htgt
   | .proj e idx ty, m, st, Γ, K, sc, hfrag, hctx, hdecl, htgt => by
     rw [compileTail_simple env m st (by rfl)]; exact scopeC_simple m _ Γ K sc rfl hfrag hctx htgt
 theorem scopeArms {env : Env} {file : AFile} {G : List String} {D : Names} :
